@@ -90,6 +90,15 @@ def current_field (m, T = None, Tv = None, unit = None, upper_only = None):
             tau = (h - P) * sg
             tau = tau / np.linalg.norm (tau)
             key = tuple (int (x) for x in np.round (T (mid) / L * 50))
+            # pulses that share a half-segment (junction pulses) may write its end a little differently (ends
+            # joined within the matching tolerance): a neighbouring bin is the same half-segment
+            if key not in f:
+                for dx in (-1, 0, 1):
+                    for dy in (-1, 0, 1):
+                        for dz in (-1, 0, 1):
+                            k2 = (key [0] + dx, key [1] + dy, key [2] + dz)
+                            if k2 in f:
+                                key = k2
             f [key] = f.get (key, 0) + I * Tv (tau)
     return f
 # end def current_field
